@@ -4,7 +4,7 @@ from scale_common import ScaleSpec
 from pipe_common import PipeSpec
 
 PROP_FILES = ["C10"]
-SPECS = {"scale": (ScaleSpec(['pipe']), "harness", "runner"), "pipe": (PipeSpec(), "harness_pipe", "runner-pipe")}
+SPECS = {"scale": (ScaleSpec(['pipe', 'pipe-trysend-storm', 'pipe-idle-next']), "harness", "runner"), "pipe": (PipeSpec(), "harness_pipe", "runner-pipe")}
 
 
 def run(ctx):
@@ -14,9 +14,13 @@ def run(ctx):
         ctx.violation("harness-build", "the harness does not build against the current tree: " + out[-1500:], {"build_output": out[-4000:]}, failing_input=False)
         return ctx.finish()
     vlib.seq_differential(ctx, PipeSpec(), exe, proofs_ok, tag="pipe")
+    if ctx.tier == "thorough":
+        vlib.patience_part(ctx, PipeSpec(), exe, proofs_ok, tag="pipe")
     okS, outS, exeS = vlib.build_runner()
     if okS:
-        vlib.seq_differential(ctx, ScaleSpec(['pipe']), exeS, proofs_ok, tag="scale")
+        vlib.seq_differential(ctx, ScaleSpec(['pipe', 'pipe-trysend-storm', 'pipe-idle-next']), exeS, proofs_ok, tag="scale")
+    else:
+        ctx.violation("harness-build", "the harness does not build against the current tree: " + outS[-1500:], {"build_output": outS[-4000:]}, failing_input=False)
     vlib.merge_parts(ctx, "cases = controller scripts (1-4 sender goroutines with scripted Send/TrySend/Close calls released by tokens, Next calls one at a time, "
                      "receiver Close, context cancellation, quiescence points) run against the real stream.Pipe with buffer sizes 0, 1, 2, 8; "
                      "each recorded history must be accepted by the LTS model Conc/Pipe.v (some schedule and some choice of ready select arms produces it, and every "
